@@ -75,7 +75,7 @@ impl Terminal for RecTerm {
 const NARROW: [u32; 6] = [0x20, 0x61, 0x62, 0x78, 0x2500, 0xE9];
 const WIDE: [u32; 3] = [0x4E16, 0x754C, 0x1F600];
 const ZERO: [u32; 2] = [0x0301, 0x07];
-const NFACES: u64 = 10;
+const NFACES: u64 = 14;
 const NIMAGES: u64 = 3;
 const NGLYPHS: u64 = 2;
 
@@ -124,6 +124,10 @@ fn pools() -> Pools {
         Face::new(None, blue, FaceAttrs::UNDERLINE),
         Face::new(red, None, FaceAttrs::REVERSE),
         Face::new(None, blue, FaceAttrs::STRIKE),
+        Face::new(red, None, FaceAttrs::UNDERLINE_CURLY.insert(FaceAttrs::BOLD)),
+        Face::new(None, None, FaceAttrs::UNDERLINE_DOUBLE),
+        Face::new(None, blue, FaceAttrs::UNDERLINE_DOTTED),
+        Face::new(red, blue, FaceAttrs::UNDERLINE_DASHED),
         // the value frame() used to initialise its tracked face with
         Face::default().with_bg(Some(RGBA::new(1, 2, 3, 255))),
     ];
